@@ -239,7 +239,56 @@ def _char_counter_slices(R, tf):
         R.ok("C20.slice", "tokenize", "%d cut(s) of the input text, none addressed by a per-character counter" % len(cuts), tf.loc(), nontrivial=False)
 
 
+def _parser_memo(R):
+    """C20.memo: the parser carries no memory from one clause to the next except its cursor and nesting depth: a field that one parsing
+    routine fills and another consults makes the result depend on the order in which the clauses were written"""
+    import json, os
+    P = R.prog
+    PADT = "sqlgrep::parsing::parser::Parser"
+    R.rule("C20.memo", "no field of Parser other than the pinned cursor / depth / operator tables is both changed while parsing and read while "
+                       "parsing: what a clause means does not depend on which clauses were parsed before it")
+    a = P.adts.get(PADT)
+    if not a:
+        return
+    try:
+        with open(os.path.join(os.path.dirname(os.path.dirname(os.path.abspath(__file__))), "tables", "pinned_fns.json")) as fh:
+            pinned = set(n for n, _ in json.load(fh).get("fields", {}).get(PADT, []))
+    except Exception:
+        pinned = set()
+    fresh = [fl["name"] for fl in a["variants"][0]["fields"] if fl["name"] not in pinned] if pinned else []
+    bad = []
+    for n in fresh:
+        wr, rd = [], []
+        for f in P.fns.values():
+            if f.target != "lib" or f.derived:
+                continue
+            builds = any(st["k"] == "assign" and st["rv"]["k"] == "aggr" and st["rv"].get("adt") == PADT for _, st in f.stmts())
+            for i, st in f.stmts():
+                if st["k"] != "assign":
+                    continue
+                inpl = any(isinstance(e, dict) and e.get("n") == n and e.get("adt") == PADT for e in st["pl"]["p"])
+                rv = st["rv"]
+                rpl = rv.get("pl") if rv["k"] in ("ref", "copy_for_deref", "rawptr", "discr") else (rv.get("op") or {}).get("pl") if rv["k"] in ("use", "cast") else None
+                inrv = rpl is not None and any(isinstance(e, dict) and e.get("n") == n and e.get("adt") == PADT for e in rpl["p"])
+                if inpl or (inrv and rv["k"] in ("ref", "rawptr") and rv.get("bk") in ("mut", "Mut")):
+                    if not builds:
+                        wr.append("%s:%d" % (f.file, st["line"]))
+                elif inrv:
+                    rd.append("%s:%d" % (f.file, st["line"]))
+        if wr and rd:
+            bad.append((n, wr[0], rd[0]))
+    if bad:
+        for n, w, r_ in bad[:2]:
+            R.violation("C20.memo", "Parser|%s" % n, "Parser.%s is filled while parsing (%s) and consulted while parsing (%s): a clause is "
+                        "then read differently depending on which clauses came before it, so two orders of the same clauses do not parse "
+                        "to the same statement" % (n, w, r_), [r_])
+    else:
+        R.ok("C20.memo", "Parser", "no new parser field is both written and read while parsing (new fields: %s)" % (fresh or "none"),
+             "src/parsing/parser.rs", nontrivial=False)
+
+
 def run(R):
+    _parser_memo(R)
     P = R.prog
     R.rule("C20.case", "every lookup of a keyword, function, aggregate, type or modifier name (static-table lookups, ValueType::from_str, "
                        "string equality against a literal) applies to a lower-cased operand")
